@@ -697,12 +697,24 @@ func CreateUpdateMsgFromPaths(pathList []*Path, options ...*bgp.MarshallingOptio
 	// Since sendMessageloop coalesces outgoing BGP UPDATE messages and
 	// the packers emit withdrawals before announcements, we should keep only the
 	// last action for each NLRI/path-id within one packing pass.
+	//
+	// The key is what the receiver distinguishes: without ADD-PATH there is only
+	// one route per NLRI on the wire whatever local path-id the paths have, so
+	// e.g. [announce path#1, announce path#2, withdraw path#2] must end with the
+	// withdrawal and not with a stale announcement of path#1.
+	wireKey := func(path *Path) PathLocalKey {
+		key := path.GetLocalKey()
+		if !bgp.IsAddPathEnabled(false, path.GetFamily(), options) {
+			key.Id = 0
+		}
+		return key
+	}
 	last := make(map[PathLocalKey]*Path, len(pathList))
 	for _, path := range pathList {
 		if path == nil || path.IsEOR() {
 			continue
 		}
-		last[path.GetLocalKey()] = path
+		last[wireKey(path)] = path
 	}
 
 	m := make(map[bgp.Family]packerInterface)
@@ -722,7 +734,7 @@ func CreateUpdateMsgFromPaths(pathList []*Path, options ...*bgp.MarshallingOptio
 			add(path)
 			continue
 		}
-		if last[path.GetLocalKey()] != path {
+		if last[wireKey(path)] != path {
 			continue
 		}
 		add(path)
